@@ -122,7 +122,7 @@ package smf
 //@ func (*reader)._readEvent
 //@ uses vlqSpanDef
 //@ requires rdInv(r)
-//@ modifies r.isDone, r.expectChunk, r.input.spos, r.input.sfault, asptr(r.runningStatus, runningstatus.smfreader).reader.status
+//@ modifies r.isDone, r.expectChunk, r.input.spos, r.input.sfault, *asptr(r.runningStatus, runningstatus.smfreader)
 //@ ensures [H] rdInv(r)
 //@ ensures [P:C02] old(ek(r, canary)) != 0 ==> rrs(r) == evRS(canary, old(rrs(r)))
 //@ ensures [P:C05] old(ek(r, canary)) == 0 ==> err != nil
@@ -157,7 +157,7 @@ package smf
 //@ func (*reader).readEvent
 //@ uses vlqSpanDef
 //@ requires rdInv(r)
-//@ modifies r.deltatime, r.isDone, r.expectChunk, r.input.spos, r.input.sfault, asptr(r.runningStatus, runningstatus.smfreader).reader.status
+//@ modifies r.deltatime, r.isDone, r.expectChunk, r.input.spos, r.input.sfault, *asptr(r.runningStatus, runningstatus.smfreader)
 //@ ensures [H] rdInv(r)
 //@ ensures [H] old(r.error) != nil ==> (err == old(r.error) && r.input.spos == old(r.input.spos) && r.input.sfault == old(r.input.sfault) && r.isDone == old(r.isDone) && r.expectChunk == old(r.expectChunk) && r.deltatime == old(r.deltatime))
 //@ ensures [P:C02] old(r.error) == nil && err == nil ==> (vlqEndsAt(r.input.sdata, old(r.input.spos), vlqSpan(r.input.sdata, old(r.input.spos))) && r.deltatime == vq(r.input.sdata, old(r.input.spos)) && r.input.spos >= old(r.input.spos) + vlqSpan(r.input.sdata, old(r.input.spos)) + 1)
